@@ -250,10 +250,14 @@ Proof.
     assert (Hl : l <> 0) by (apply Hwf; left; reflexivity).
     assert (Hwf' : wf_clause c) by (intros x Hx; apply Hwf; right; exact Hx).
     destruct (get_unit u (Z.abs l) =? 0) eqn:E0.
-    + destruct acc as [l0|]; [exact I|].
-      apply IH; [exact Hwf'|].
-      destruct Hs as [Hs|[]]. unfold sat_clause in Hs. simpl in Hs.
-      apply orb_true_iff in Hs. destruct Hs as [Hs|Hs]; [right; exact Hs|left; exact Hs].
+    + destruct acc as [l0|].
+      * destruct (l =? l0) eqn:El; [|exact I]. apply Z.eqb_eq in El. subst l0.
+        apply IH; [exact Hwf'|].
+        destruct Hs as [Hs|Hs]; [|right; exact Hs]. unfold sat_clause in Hs. simpl in Hs.
+        apply orb_true_iff in Hs. destruct Hs as [Hs|Hs]; [right; exact Hs|left; exact Hs].
+      * apply IH; [exact Hwf'|].
+        destruct Hs as [Hs|[]]. unfold sat_clause in Hs. simpl in Hs.
+        apply orb_true_iff in Hs. destruct Hs as [Hs|Hs]; [right; exact Hs|left; exact Hs].
     + apply Z.eqb_neq in E0.
       destruct (get_unit u (Z.abs l) * l =? Z.abs l) eqn:E1; [exact I|].
       apply Z.eqb_neq in E1.
@@ -347,9 +351,12 @@ Proof.
   intros u. induction c as [|x c IH]; intros acc l E; simpl in E.
   - destruct acc; inversion E; auto.
   - destruct (get_unit u (Z.abs x) =? 0).
-    + destruct acc; [discriminate|]. destruct (IH _ _ E) as [H|H].
-      * inversion H; subst. right; left; reflexivity.
-      * right; right; exact H.
+    + destruct acc as [l0|].
+      * destruct (x =? l0); [|discriminate]. destruct (IH _ _ E) as [H|H]; auto.
+        right; right; exact H.
+      * destruct (IH _ _ E) as [H|H].
+        -- inversion H; subst. right; left; reflexivity.
+        -- right; right; exact H.
     + destruct (get_unit u (Z.abs x) * x =? Z.abs x); [discriminate|].
       destruct (IH _ _ E) as [H|H]; auto. right; right; exact H.
 Qed.
@@ -449,6 +456,47 @@ Qed.
 Lemma map_snd_pair_false : forall cs : cnf, map snd (map (pair false) cs) = cs.
 Proof. induction cs as [|c cs IH]; simpl; congruence. Qed.
 
+(* --- tautological lines (check.go:23-29) --- *)
+Lemma taut_scan_true : forall c seen, taut_scan seen c = true ->
+  exists l, In l c /\ (In (- l) seen \/ In (- l) c).
+Proof.
+  induction c as [|x c IH]; intros seen H; cbn [taut_scan] in H; [discriminate|].
+  destruct (existsb (fun l2 => l2 =? - x) seen) eqn:E.
+  - apply existsb_exists in E. destruct E as [l2 [H2 E2]]. apply Z.eqb_eq in E2. subst l2.
+    exists x. split; [left; reflexivity|left; exact H2].
+  - destruct (IH _ H) as [l [Hl [[Hs|Hs]|Hs]]].
+    + exists x. split; [left; reflexivity|]. right. right.
+      replace (- x) with l by lia. exact Hl.
+    + exists l. split; [right; exact Hl|left; exact Hs].
+    + exists l. split; [right; exact Hl|right; right; exact Hs].
+Qed.
+
+Lemma taut_scan_false : forall c seen, taut_scan seen c = false ->
+  forall l, In l c -> l <> 0 -> ~ In (- l) c /\ ~ In (- l) seen.
+Proof.
+  induction c as [|x c IH]; intros seen H l Hl Hnz; [destruct Hl|]. cbn [taut_scan] in H.
+  destruct (existsb (fun l2 => l2 =? - x) seen) eqn:E; [discriminate|].
+  assert (Hx : ~ In (- x) seen).
+  { intros Hin. assert (existsb (fun l2 => l2 =? - x) seen = true); [|congruence].
+    apply existsb_exists. exists (- x). split; [exact Hin|apply Z.eqb_refl]. }
+  destruct Hl as [<-|Hl].
+  - split; [|exact Hx]. intros [E1|Hin]; [lia|].
+    assert (Hnz' : - x <> 0) by lia.
+    destruct (IH _ H (- x) Hin Hnz') as [_ K]. apply K. left. lia.
+  - destruct (IH _ H l Hl Hnz) as [K1 K2]. split.
+    + intros [E1|Hin]; [|exact (K1 Hin)]. apply K2. left. exact E1.
+    + intros Hin. apply K2. right. exact Hin.
+Qed.
+
+Lemma is_taut_sat : forall m c, wf_clause c -> is_taut c = true -> sat_clause m c = true.
+Proof.
+  intros m c Hwf H. destruct (taut_scan_true c [] H) as [l [Hl [[]|Hn]]].
+  assert (Hnz : l <> 0) by (apply Hwf; exact Hl).
+  unfold sat_clause. apply existsb_exists. destruct (lit_val m l) eqn:E.
+  - exists l. auto.
+  - exists (- l). split; [exact Hn|]. rewrite lit_val_opp by exact Hnz. rewrite E. reflexivity.
+Qed.
+
 Lemma check_line_sound : forall m nb T clauses u t line,
   agrees m u -> units_ok u -> length t = nb -> wf_clause line ->
   goodc m nb T 0 clauses ->
@@ -457,8 +505,9 @@ Lemma check_line_sound : forall m nb T clauses u t line,
   sat_clause m line = true.
 Proof.
   intros m nb T clauses u t line Ha Ho Hlen Hwf Hg Hv Hle.
+  destruct (is_taut line) eqn:Et; [apply is_taut_sat; assumption|].
   destruct (sat_clause m line) eqn:Es; [reflexivity|exfalso].
-  unfold check_line, up_unsat in *.
+  unfold check_line, up_unsat in *. rewrite Et in *.
   eapply (up_loop_sound m nb T); try exact Hle; try exact Hv; auto.
   - apply agrees_neg_assign; auto.
   - apply units_ok_neg_assign; auto.
@@ -467,11 +516,17 @@ Qed.
 
 Lemma check_line_tags_mono : forall nb clauses u t line j,
   nth j t false = true -> nth j (snd (check_line nb clauses u t line)) false = true.
-Proof. intros. unfold check_line, up_unsat. apply up_loop_tags_mono. assumption. Qed.
+Proof.
+  intros. unfold check_line, up_unsat. destruct (is_taut line); [assumption|].
+  apply up_loop_tags_mono. assumption.
+Qed.
 
 Lemma check_line_tags_length : forall nb clauses u t line,
   length (snd (check_line nb clauses u t line)) = length t.
-Proof. intros. unfold check_line, up_unsat. apply up_loop_tags_length. Qed.
+Proof.
+  intros. unfold check_line, up_unsat. destruct (is_taut line); [reflexivity|].
+  apply up_loop_tags_length.
+Qed.
 
 Fixpoint lines_clauses (lines : list line_res) : list clause :=
   match lines with
